@@ -36,8 +36,8 @@ impl Property for C15 {
             knobs: Knobs { max_nodes, variant, ..Default::default() },
         };
         match tier {
-            Tier::Quick => vec![mk("trees", 200_000, 30, 0), mk("trees-stripped", 200_000, 30, 1)],
-            Tier::Thorough => vec![mk("trees", 1_500_000, 30, 0), mk("trees-big", 60_000, 100, 0), mk("trees-stripped", 1_500_000, 30, 1)],
+            Tier::Quick => vec![mk("trees", 200_000, 30, 0), mk("trees-stripped", 200_000, 30, 1), mk("trees-xml-rebound", 100_000, 24, 2)],
+            Tier::Thorough => vec![mk("trees", 1_500_000, 30, 0), mk("trees-big", 60_000, 100, 0), mk("trees-stripped", 1_500_000, 30, 1), mk("trees-xml-rebound", 600_000, 24, 2)],
         }
     }
 
@@ -83,6 +83,40 @@ impl Property for C15 {
                 if done {
                     ctx.label("prefix_bound_to_the_xml_namespace");
                 }
+            }
+        }
+        if ctx.knobs.variant == 2 {
+            // plan trees-xml-rebound: the prefix xml declared as another namespace on some elements
+            // (Xot::set_namespace and the parser allow it). The serializer never writes or uses such a
+            // declaration, so it is no reason to drop another declaration of that namespace
+            fn rebind_xml(n: &mut ANode, src: &mut Src, top: bool, any: &mut bool) {
+                if let ANode::Element(e) = n {
+                    if src.ratio(1, if top { 2 } else { 5 }) {
+                        let u = ["urn:a", "urn:b", "urn:c"][src.choice(3)];
+                        e.decls.retain(|(p, _)| p != "xml");
+                        let at = src.choice(e.decls.len() + 1);
+                        e.decls.insert(at, ("xml".to_string(), u.to_string()));
+                        *any = true;
+                    }
+                }
+                if let Some(ch) = n.children_mut() {
+                    for c in ch.iter_mut() {
+                        rebind_xml(c, src, false, any);
+                    }
+                }
+            }
+            let mut any = false;
+            if matches!(doc, ANode::Document(_)) {
+                if let Some(ch) = doc.children_mut() {
+                    for c in ch.iter_mut() {
+                        rebind_xml(c, src, true, &mut any);
+                    }
+                }
+            } else {
+                rebind_xml(&mut doc, src, true, &mut any);
+            }
+            if any {
+                ctx.label("xml_prefix_bound_to_another_namespace");
             }
         }
         let mut xot = Xot::new();
